@@ -322,7 +322,9 @@ def replay(ob, res):
     if "_retry" not in ob.id and "__getattr__" not in ob.id:
         return {"reproduced": False, "note": "constructor case obligation: see obligation id for the rejected/accepted configuration"}
     obs = rp.run_real(SNIPPET, {"max_attempts": 3}, timeout=300)
-    if obs.get("failing"):
+    from pyvc.replay import failing_of
+    if failing_of(obs):
+        obs = dict(obs, failing=failing_of(obs))
         return {"reproduced": True, "call": "RetryingClient(inner, attempts, retry_delay=0.25, retry_for, do_not_retry_for).op(1, 2, x=3)",
                 "input": obs["failing"], "cases_tried": obs.get("cases")}
     return {"reproduced": False, "searched": obs}
